@@ -1,13 +1,19 @@
 (* Correspondence run for C03: case = input history + what the real executors did at every op. *)
 From Coq Require Import List NArith Bool.
 Import ListNotations.
-From SygmaV Require Export Lib.RunLib Model.C03.
+From SygmaV Require Export Lib.RunLib Model.C03 Model.C03_Conc.
 Local Open Scope N_scope.
 
 (* [init]: recorded statuses at the start (EVM/Substrate: Done = executed on the destination);
    [uni]: every key occurring in the case; [impl]: one observation per op *)
 Inductive case :=
-| Hist (ds : dest) (init : store) (uni : list key) (ops : list op) (impl : list obs).
+| Hist (ds : dest) (init : store) (uni : list key) (ops : list op) (impl : list obs)
+(* concurrent Bitcoin histories over ONE shared prop store: [re] = shared transfers recorded executed at the
+   start; per goroutine: its own transfers, its ops, and what it did / saw at every op (the statuses of
+   own ++ re).  Judged per goroutine by the sequential judge (Properties/C03.v: C03_conc_complete_thread). *)
+| Conc (init : store) (re : list key) (ths : list (list key * list op * list obs)).
+
+Definition th_of (x : list key * list op * list obs) : thread := mkthread (fst (fst x)) (snd (fst x)).
 
 Fixpoint keys_eqb (a b : list key) : bool :=
   match a, b with
@@ -57,11 +63,15 @@ Definition agree (c : case) : bool :=
   match c with
   | Hist ds init uni ops impl =>
       wf_ops uni ops && all_agree ds (model_obs ds uni (mkstate init []) ops) impl
+  | Conc init re ths =>
+      conc_wf init re (map th_of ths)
+      && forallb (fun x => all_agree BTC (solo init re (th_of x)) (snd x)) ths
   end.
 
 Definition judge (c : case) : bool :=
   match c with
   | Hist ds init uni ops impl => hist_ok ds uni (combine uni (snapshot uni init)) ops impl
+  | Conc init re ths => forallb (fun x => thread_ok init re (th_of x) (snd x)) ths
   end.
 
 (* branch tag: destination x (something signed?) x (some delivery refused with an error / panic?) *)
@@ -72,6 +82,7 @@ Definition tag (c : case) : N :=
       (match ds with EVM => 0 | SUB => 4 | BTC => 8 end)
       + (if existsb (fun x => negb (is_nil (signed_of (snd x)))) tr then 1 else 0)
       + (if existsb (fun x => match snd x with Ok _ => false | _ => true end) tr then 2 else 0)
+  | Conc init re ths => 12 + N.min 8 (N.of_nat (length ths))
   end.
 
 Definition check_all := check_cases agree judge tag.
